@@ -219,10 +219,11 @@ class MainLoop(Contract):
     def replay(self, o, model, pid):
         """whole-program replay: the real binary, built from the tree under check, run on scenarios whose results are checked
         without any model (record counts against the time axis, cadence independence of the final state, SIGINT handling)"""
-        sc = {'C10': ['records'], 'C12': ['cadence'], 'C14': ['interrupt', 'records'], 'C19': ['rfkicks', 'cadence']}.get(pid)
+        sc = {'C10': ['records'], 'C12': ['cadence'], 'C14': ['interrupt', 'records'], 'C19': ['rfkicks', 'cadence'], 'C11': ['restart']}.get(pid)
         return {'driver': 'main', 'scenarios': sc} if sc else None
     slice_from = 'updatetime'
     canary = True
+    property_inits = {'projection_fresh'}   # ... and so is this entry condition of the loop (C11): a refuted one stands
     property_hints = True      # the per-iteration reference term IS the statement of C12/C05 (step result independent of the output block)
 
     def slice_setup(self, ex, st):
@@ -307,6 +308,9 @@ class MainLoop(Contract):
     @property
     def loops(self):
         l = LoopSpec(inv=self._inv, hints=self._hints)
+        # C11: whatever produced the start distribution (generated, text file, results file), the first step sees the bunch
+        # profile OF THAT GRID (the loaders overwrite the data of a freshly constructed Gaussian grid and leave its projections)
+        l.label_tags = {'projection_fresh': {'C11'}}
         l.exit_effect = self._exit
         return {'while#0': l}
 
